@@ -36,6 +36,113 @@ def option_sets(draw_subsets):
     return sets
 
 
+def compare_value(builds, acc, mod, tname, t, feats, ttext, v):
+    """one value through every build; raises Fail on the first difference (used by the worker and by replays)"""
+    refder = ref_ber.encode(mod, t, v)
+    if len(refder) > 8000:
+        # (option sets) x (five encoders + chain + cross decoding) per value: large values cost seconds each
+        acc.excluded["value too large for the option-set comparison (> 8000 octets of DER)"] += 1
+        return
+    vfeats = pipeline.value_features(mod, t, v)
+    base_reply = None
+    replay = {"module": mod.subset([tname]).to_json(), "type": tname, "value": val_to_json(v)}
+    touches = ("CHOICE" in feats) or ("REAL" in feats) or ("nest>=2" in feats) or \
+        ("INTEGER" in feats or "ENUMERATED" in feats)
+    for fs, mb, sess in builds:
+        try:
+            r = sess.cmd("enc %s %s %s" % (tname, drv.hexs(refder), ",".join(SYN)))
+        except drv.DriverCrash as e:
+            raise Fail(h(ttext, "crash", fs), "driver built with %s crashed on %s value %s: %s" % (
+                fs, tname, val_repr(v), str(e)[-1500:]), dict(replay, flags=list(fs)))
+        if "inject" in r:
+            if fs == BASE:
+                acc.excluded["inject-failed"] += 1
+                return
+            if "int.beyond-long" in vfeats or "-fwide-types" not in fs:
+                pass
+            raise Fail(h(ttext, "inject", fs), "%s ::= %s value %s: the build with %s cannot decode the DER the "
+                       "baseline build decodes (%s)" % (tname, ttext, val_repr(v), fs, r["_raw"][:200]),
+                       dict(replay, flags=list(fs)))
+        if fs == BASE:
+            base_reply = r
+            acc.case(h(ttext, val_to_json(v)) if touches and not pipeline.trivial_value(v) else None, list(feats))
+            continue
+        acc.extra["build_comparisons"] += 1
+        # INTEGER values beyond the C long range under -fwide-types: two recorded findings (PER through long,
+        # XER hex dump) make UPER and XER incomparable with the native build
+        wide_beyond = "-fwide-types" in fs and ("int.beyond-long" in vfeats or _near_long_edge(v)) and \
+            not getattr(acc, "probe", False)
+        for s in SYN:
+            a, b = base_reply.get(s), r.get(s)
+            if a in ("nocodec", None) or b in ("nocodec", None):
+                continue
+            if (s == "uper" and "-no-gen-PER" in fs) or (s == "oer" and "-no-gen-OER" in fs):
+                continue        # the codec is disabled in that build (its tables are not generated)
+            if s == "uper" and "-fno-constraints" in fs and ("cons.from" in feats or "NumericString" in feats) and \
+                    KNOWN.is_known(PID, "fno-constraints.per-alphabet-map"):
+                acc.excluded["known:fno-constraints.per-alphabet-map"] += 1
+                continue
+            if s == "uper" and wide_beyond and KNOWN.is_known(PID, K_WIDEPER):
+                acc.excluded["known:" + K_WIDEPER] += 1
+                continue
+            if s in ("xer", "cxer") and wide_beyond and KNOWN.is_known(PID, "int.beyond-long.xer"):
+                acc.excluded["known:int.beyond-long.xer"] += 1
+                continue
+            if a != b:
+                raise Fail(h(ttext, "bytes", s, fs), "%s ::= %s\nvalue %s\n%s differs between option sets:\n  %s: %s\n  %s: %s" % (
+                    tname, ttext, val_repr(v), s, BASE, str(a)[:300], fs, str(b)[:300]), dict(replay, flags=list(fs)))
+        # transcoding chain: what a decoder built with these options leaves in memory must encode to the
+        # same bytes as in the baseline build (DER -> UPER -> OER -> XER -> UPER)
+        if "-no-gen-PER" not in fs and "-no-gen-OER" not in fs and not (
+                wide_beyond and KNOWN.is_known(PID, K_WIDEPER)) and not (
+                "-fno-constraints" in fs and ("cons.from" in feats or "NumericString" in feats)):
+            if "chain" not in base_reply:
+                base_reply["chain"] = builds[0][2].cmd("rt %s %s uper,oer,xer,uper" % (tname, drv.hexs(refder)))
+            rc_ = sess.cmd("rt %s %s uper,oer,xer,uper" % (tname, drv.hexs(refder)))
+            acc.extra["chain_comparisons"] += 1
+            for k_ in ("b0", "b1", "b2", "b3"):
+                a, b = base_reply["chain"].get(k_), rc_.get(k_)
+                if a is None or b is None:
+                    break
+                if a != b:
+                    raise Fail(h(ttext, "chain", k_, fs), "%s ::= %s\nvalue %s\nstep %s of the chain DER->UPER->OER->XER->UPER "
+                               "gives other bytes than in the baseline build:\n  %s: %s\n  %s: %s" % (
+                                   tname, ttext, val_repr(v), k_, BASE, str(a)[:300], fs, str(b)[:300]),
+                               dict(replay, flags=list(fs)))
+        # cross decoding: baseline bytes into this build
+        for s, dsyn in (("uper", "uper"), ("oer", "oer"), ("xer", "xer")):
+            a = base_reply.get(s)
+            if a in ("nocodec", "fail", None) or r.get(s) in ("nocodec", None):
+                continue
+            if (s == "uper" and "-no-gen-PER" in fs) or (s == "oer" and "-no-gen-OER" in fs):
+                continue
+            if s == "uper" and "-fno-constraints" in fs and ("cons.from" in feats or "NumericString" in feats) and \
+                    KNOWN.is_known(PID, "fno-constraints.per-alphabet-map"):
+                continue
+            if wide_beyond and ((s == "uper" and KNOWN.is_known(PID, K_WIDEPER))
+                                or (s == "xer" and KNOWN.is_known(PID, "int.beyond-long.xer"))):
+                continue
+            try:
+                d = sess.cmd("dec %s %s %s" % (tname, dsyn, a))
+            except drv.DriverCrash as e:
+                raise Fail(h(ttext, "crash-dec", fs), "driver built with %s crashed decoding baseline %s bytes of "
+                           "%s: %s" % (fs, s, tname, str(e)[-1500:]), dict(replay, flags=list(fs)))
+            # differential: the same bytes decoded by the baseline build (what a decoder makes of them is C01/C03's
+            # business; here only the option set may not matter)
+            bk = "dec." + s
+            if bk not in base_reply:
+                base_reply[bk] = builds[0][2].cmd("dec %s %s %s" % (tname, dsyn, a))
+            d0 = base_reply[bk]
+            if d.get("rc") != d0.get("rc") or d.get("der") != d0.get("der") or d.get("consumed") != d0.get("consumed"):
+                raise Fail(h(ttext, "crossdec", s, fs), "%s ::= %s\nvalue %s\nthe baseline's %s bytes %s decode to rc=%s "
+                           "consumed=%s der=%s in the baseline build but to rc=%s consumed=%s der=%s in the build with %s" % (
+                               tname, ttext, val_repr(v), s, a[:200], d0.get("rc"), d0.get("consumed"), str(d0.get("der"))[:200],
+                               d.get("rc"), d.get("consumed"), str(d.get("der"))[:200], fs), dict(replay, flags=list(fs)))
+    if acc.evaluations % 89 == 1:
+        acc.sample({"type": "%s ::= %s" % (tname, ttext[:200]), "value": val_repr(v, 100),
+                    "option_sets": [" ".join(fs) for fs, _, _ in builds]})
+
+
 def worker(mod_json, wseed, nvalues, subsets):
     acc = Acc()
     mod = Module.from_json(mod_json)
@@ -73,102 +180,7 @@ def worker(mod_json, wseed, nvalues, subsets):
             acc.extra["types"] += 1
 
             def body(v, tname=tname, t=t, feats=feats, ttext=ttext):
-                refder = ref_ber.encode(mod, t, v)
-                if len(refder) > 8000:
-                    # (option sets) x (five encoders + chain + cross decoding) per value: large values cost seconds each
-                    acc.excluded["value too large for the option-set comparison (> 8000 octets of DER)"] += 1
-                    return
-                vfeats = pipeline.value_features(mod, t, v)
-                base_reply = None
-                replay = {"module": mod.subset([tname]).to_json(), "type": tname, "value": val_to_json(v)}
-                touches = ("CHOICE" in feats) or ("REAL" in feats) or ("nest>=2" in feats) or \
-                    ("INTEGER" in feats or "ENUMERATED" in feats)
-                for fs, mb, sess in builds:
-                    try:
-                        r = sess.cmd("enc %s %s %s" % (tname, drv.hexs(refder), ",".join(SYN)))
-                    except drv.DriverCrash as e:
-                        raise Fail(h(ttext, "crash", fs), "driver built with %s crashed on %s value %s: %s" % (
-                            fs, tname, val_repr(v), str(e)[-1500:]), dict(replay, flags=list(fs)))
-                    if "inject" in r:
-                        if fs == BASE:
-                            acc.excluded["inject-failed"] += 1
-                            return
-                        if "int.beyond-long" in vfeats or "-fwide-types" not in fs:
-                            pass
-                        raise Fail(h(ttext, "inject", fs), "%s ::= %s value %s: the build with %s cannot decode the DER the "
-                                   "baseline build decodes (%s)" % (tname, ttext, val_repr(v), fs, r["_raw"][:200]),
-                                   dict(replay, flags=list(fs)))
-                    if fs == BASE:
-                        base_reply = r
-                        acc.case(h(ttext, val_to_json(v)) if touches and not pipeline.trivial_value(v) else None, list(feats))
-                        continue
-                    acc.extra["build_comparisons"] += 1
-                    # INTEGER values beyond the C long range under -fwide-types: two recorded findings (PER through long,
-                    # XER hex dump) make UPER and XER incomparable with the native build
-                    wide_beyond = "-fwide-types" in fs and "int.beyond-long" in vfeats and not getattr(acc, "probe", False)
-                    for s in SYN:
-                        a, b = base_reply.get(s), r.get(s)
-                        if a in ("nocodec", None) or b in ("nocodec", None):
-                            continue
-                        if (s == "uper" and "-no-gen-PER" in fs) or (s == "oer" and "-no-gen-OER" in fs):
-                            continue        # the codec is disabled in that build (its tables are not generated)
-                        if s == "uper" and "-fno-constraints" in fs and ("cons.from" in feats or "NumericString" in feats) and \
-                                KNOWN.is_known(PID, "fno-constraints.per-alphabet-map"):
-                            acc.excluded["known:fno-constraints.per-alphabet-map"] += 1
-                            continue
-                        if s == "uper" and wide_beyond and KNOWN.is_known(PID, K_WIDEPER):
-                            acc.excluded["known:" + K_WIDEPER] += 1
-                            continue
-                        if s in ("xer", "cxer") and wide_beyond and KNOWN.is_known(PID, "int.beyond-long.xer"):
-                            acc.excluded["known:int.beyond-long.xer"] += 1
-                            continue
-                        if a != b:
-                            raise Fail(h(ttext, "bytes", s, fs), "%s ::= %s\nvalue %s\n%s differs between option sets:\n  %s: %s\n  %s: %s" % (
-                                tname, ttext, val_repr(v), s, BASE, str(a)[:300], fs, str(b)[:300]), dict(replay, flags=list(fs)))
-                    # transcoding chain: what a decoder built with these options leaves in memory must encode to the
-                    # same bytes as in the baseline build (DER -> UPER -> OER -> XER -> UPER)
-                    if "-no-gen-PER" not in fs and "-no-gen-OER" not in fs and not (
-                            wide_beyond and KNOWN.is_known(PID, K_WIDEPER)) and not (
-                            "-fno-constraints" in fs and ("cons.from" in feats or "NumericString" in feats)):
-                        if "chain" not in base_reply:
-                            base_reply["chain"] = builds[0][2].cmd("rt %s %s uper,oer,xer,uper" % (tname, drv.hexs(refder)))
-                        rc_ = sess.cmd("rt %s %s uper,oer,xer,uper" % (tname, drv.hexs(refder)))
-                        acc.extra["chain_comparisons"] += 1
-                        for k_ in ("b0", "b1", "b2", "b3"):
-                            a, b = base_reply["chain"].get(k_), rc_.get(k_)
-                            if a is None or b is None:
-                                break
-                            if a != b:
-                                raise Fail(h(ttext, "chain", k_, fs), "%s ::= %s\nvalue %s\nstep %s of the chain DER->UPER->OER->XER->UPER "
-                                           "gives other bytes than in the baseline build:\n  %s: %s\n  %s: %s" % (
-                                               tname, ttext, val_repr(v), k_, BASE, str(a)[:300], fs, str(b)[:300]),
-                                           dict(replay, flags=list(fs)))
-                    # cross decoding: baseline bytes into this build
-                    for s, dsyn in (("uper", "uper"), ("oer", "oer"), ("xer", "xer")):
-                        a = base_reply.get(s)
-                        if a in ("nocodec", "fail", None) or r.get(s) in ("nocodec", None):
-                            continue
-                        if (s == "uper" and "-no-gen-PER" in fs) or (s == "oer" and "-no-gen-OER" in fs):
-                            continue
-                        if s == "uper" and "-fno-constraints" in fs and ("cons.from" in feats or "NumericString" in feats) and \
-                                KNOWN.is_known(PID, "fno-constraints.per-alphabet-map"):
-                            continue
-                        if wide_beyond and ((s == "uper" and KNOWN.is_known(PID, K_WIDEPER))
-                                            or (s == "xer" and KNOWN.is_known(PID, "int.beyond-long.xer"))):
-                            continue
-                        try:
-                            d = sess.cmd("dec %s %s %s" % (tname, dsyn, a))
-                        except drv.DriverCrash as e:
-                            raise Fail(h(ttext, "crash-dec", fs), "driver built with %s crashed decoding baseline %s bytes of "
-                                       "%s: %s" % (fs, s, tname, str(e)[-1500:]), dict(replay, flags=list(fs)))
-                        if d.get("rc") != "0" or drv.unhex(d.get("der", "-") if d.get("der") != "fail" else "-") != refder:
-                            raise Fail(h(ttext, "crossdec", s, fs), "%s ::= %s\nvalue %s\nthe build with %s decodes the "
-                                       "baseline's %s bytes %s to rc=%s der=%s (expected %s)" % (
-                                           tname, ttext, val_repr(v), fs, s, a[:200], d.get("rc"), str(d.get("der"))[:200],
-                                           refder.hex()[:200]), dict(replay, flags=list(fs)))
-                if acc.evaluations % 89 == 1:
-                    acc.sample({"type": "%s ::= %s" % (tname, ttext[:200]), "value": val_repr(v, 100),
-                                "option_sets": [" ".join(fs) for fs, _, _ in builds]})
+                compare_value(builds, acc, mod, tname, t, feats, ttext, v)
             f = None
             if mod.name.startswith("Cat"):
                 for bv in gen.boundary_values(mod, t):
@@ -206,28 +218,42 @@ def replay_case(case):
             return True, str(e)[-1500:]
     v = val_from_json(case["value"])
     t = mod.lookup(case["type"])
-    refder = ref_ber.encode(mod, t, v)
-    out = {}
-    for f in (BASE, fs):
-        with drv.ModuleBuild(text, f) as mb:
-            d = mb.driver()
+    feats = pipeline.type_features(mod, t)
+    acc = Acc()
+    if case.get("probe"):
+        acc.probe = True
+    builds = []
+    try:
+        for f in ([BASE] if fs == BASE else [BASE, fs]):
+            mb = drv.ModuleBuild(text, f)
+            builds.append((f, mb, pipeline.Session(mb, timeout=25)))
+        try:
+            compare_value(builds, acc, mod, case["type"], t, feats, t.render(), v)
+        except Fail as f:
+            return True, f.summary
+        except drv.DriverCrash as e:
+            return True, str(e)[-1500:]
+        return False, "identical under %s and %s" % (BASE, fs)
+    finally:
+        for _, mb, sess in builds:
             try:
-                out[f] = d.cmd("enc %s %s %s" % (case["type"], drv.hexs(refder), ",".join(SYN)))
-            except drv.DriverCrash as e:
-                return True, str(e)[-1500:]
-            finally:
-                d.kill()
-    a, b = out[BASE], out[fs]
-    if "inject" in b and "inject" not in a:
-        return True, "build with %s cannot decode the value: %s" % (fs, b["_raw"][:200])
-    for s in SYN:
-        if a.get(s) in ("nocodec", None) or b.get(s) in ("nocodec", None):
-            continue
-        if (s == "uper" and "-no-gen-PER" in fs) or (s == "oer" and "-no-gen-OER" in fs):
-            continue
-        if a.get(s) != b.get(s):
-            return True, "%s differs: %s vs %s" % (s, a.get(s), b.get(s))
-    return False, "identical under %s and %s" % (BASE, fs)
+                sess.close()
+            except Exception:
+                pass
+            mb.cleanup()
+
+
+def _near_long_edge(v):
+    """an INTEGER leaf within 2^32 of the ends of the C long range (offsets from a lower bound leave the range)"""
+    if isinstance(v, bool):
+        return False
+    if isinstance(v, int):
+        return v > (1 << 63) - (1 << 32) or v < -(1 << 63) + (1 << 32)
+    if isinstance(v, dict):
+        return any(_near_long_edge(x) for x in v.values())
+    if isinstance(v, (list, tuple)):
+        return any(_near_long_edge(x) for x in v)
+    return False
 
 
 def main(argv):
